@@ -376,6 +376,16 @@ def c08_7(ctx):
             d = deref(ctx, hm, v.func.value, s_)
             ok = isinstance(d, ast.Call) and isinstance(d.func, ast.Attribute) and d.func.attr in ('match', 'fullmatch') and unparse(d.func.value) == cmp_param
     ctx.check(ok, 'compare:operator-from-pattern', hm.site(), 'the operator is group 2 of the comparison pattern\'s match', str([unparse(v) for _, v in grp]))
+    # each directive is parsed with its own pair of patterns (comparison form first, bare form second)
+    for cname, pair in (('IfPreprocessorCondition', ('PREPROCESSOR_CONDITION_IF_PATTERN', 'PREPROCESSOR_CONDITION_IMPLIED_IF_PATTERN')),
+                        ('ElifPreprocessorCondition', ('PREPROCESSOR_CONDITION_ELIF_PATTERN', 'PREPROCESSOR_CONDITION_IMPLIED_ELIF_PATTERN'))):
+        ini = ctx.repo.func(f'{COND}.{cname}.__init__')
+        cs = [c for c in ast.walk(ini.node) if isinstance(c, ast.Call) and unparse(c.func) == 'self._handle_matching']
+        ok = len(cs) == 1
+        if ok:
+            b = bind_args(cs[0], hm)
+            ok = (unparse(b.get(hm.param_names[3])), unparse(b.get(hm.param_names[4]))) == pair and unparse(b.get(hm.param_names[1])) == ini.param_names[1]
+        ctx.check(ok, f'compare:patterns:{cname}', ini.site(cs[0]) if cs else ini.site(), f'{cname} parses its own line text with {pair[0]} then {pair[1]}', '; '.join(unparse(c)[:120] for c in cs))
     for name in ('PREPROCESSOR_CONDITION_IF_PATTERN', 'PREPROCESSOR_CONDITION_ELIF_PATTERN'):
         pat = ctx.fold.module_const(COND, name).pattern
         ctx.check('(==|!=|>|>=|<|<=)' in pat or all(o in pat for o in ('==', '!=', '>=', '<=')), f'compare:pattern-ops:{name}',
@@ -434,6 +444,7 @@ _CF = 'assembler/preprocessor/condition.py'
 _PF = 'assembler/line_object/preprocessor_line/factory.py'
 _AF = 'assembler/assembly_file.py'
 MUTANTS = [
+    V('c08-elif-bare-uses-if-pattern', 'assembler/preprocessor/condition.py', "            PREPROCESSOR_CONDITION_ELIF_PATTERN,\n            PREPROCESSOR_CONDITION_IMPLIED_ELIF_PATTERN,", "            PREPROCESSOR_CONDITION_ELIF_PATTERN,\n            PREPROCESSOR_CONDITION_IMPLIED_IF_PATTERN,", 'C08.7'),
     V('c08-top-only', _CSF, '        self._active.append(enclosing_active and condition.latch(preprocessor))', '        self._active.append(condition.latch(preprocessor))', 'C08.1'),
     V('c08-enclosing-or', _CSF, '        self._active.append(enclosing_active and condition.latch(preprocessor))', '        self._active.append(enclosing_active or condition.latch(preprocessor))', 'C08.1'),
     V('c08-evaluate-in-active', _CSF, '        return self._active[-1]\n', '        return self._active[-1] and self._stack[-1].evaluate(preprocessor)\n', 'C08.2'),
